@@ -921,6 +921,8 @@ func (w *SrvWorld) laneEnabled(l *laneState) bool {
 		return ps != nil && (ps.EndStreams > 0 || len(ps.RST) > 0)
 	case "wait-handler":
 		return w.Entries[l.idx] > 0
+	case "wait-open":
+		return op.Len >= 0 && op.Len < len(w.lanes) && w.lanes[op.Len].id != 0
 	case "wait-resp-start":
 		ps := w.Streams[l.id]
 		return ps != nil && (len(ps.HdrBlocks) > 0 || len(ps.RST) > 0)
@@ -999,6 +1001,10 @@ func (w *SrvWorld) laneSend(l *laneState) {
 			w.Probes["headers-padded"]++
 		}
 		w.sim.Logf("peer>> lane%d stream %d %s block=%x parts=%d", l.idx, id, op.Kind, blk, len(parts))
+		if op.JunkFlags != 0 {
+			frames[0][4] |= op.JunkFlags
+			w.Probes["undefined-flags"]++
+		}
 		w.c2s.Inject(frames[0])
 		l.queue = frames[1:]
 		l.keepBlock = op.NoEndHdrs
@@ -1027,6 +1033,10 @@ func (w *SrvWorld) laneSend(l *laneState) {
 		}
 		if len(body) == 0 {
 			w.Probes["data-empty"]++
+		}
+		if op.JunkFlags != 0 {
+			fb[4] |= op.JunkFlags
+			w.Probes["undefined-flags"]++
 		}
 		w.c2s.Inject(fb)
 	case "rst":
@@ -1085,7 +1095,7 @@ func (w *SrvWorld) laneSend(l *laneState) {
 			pl = append(pl, make([]byte, op.RawLen)...)
 		}
 		w.c2s.Inject(w.fw.Raw(op.RawType, op.RawFlags, id, pl))
-	case "wait-resp", "wait-handler", "wait-resp-start":
+	case "wait-resp", "wait-handler", "wait-resp-start", "wait-open":
 		// pure synchronisation
 	}
 }
